@@ -14,7 +14,7 @@ Serialisations are single protocol tokens (no blanks):
 
   parse <path>                         -> ok <abs> <step>* | err Invalid
       step := namehex ':' ( 'n' | 'p' rawhex | 'd' val | 'k' (';' keyhex '=' val)+ ),  val := ('l'|'n'|'v') hex
-  pathsof <tree>                       -> ok <pathhex>*            (every node, pre-order, LYD_PATH_STD, dynamic buffer)
+  pathsof <tree> <type>                -> ok <pathhex>*            (every node, pre-order, dynamic buffer; type 0 = STD, 1 = NO_LAST_PRED)
   pathof <tree> <addr> <type> <buflen> -> ok <pathhex> <cap> <nwrites> | ok ~ (returned buffer never written) | err Null
   find <schema> <tree> <path>          -> ok <addr> | err <Enum> [addr]
   newpath <schema> <tree> <path> <val> -> ok <parent-addr> <tree-of-created-chain> | err <Enum>
@@ -160,10 +160,11 @@ def handle (op : String) (args : List String) : String :=
       | some (abs, steps) => " ".intercalate (["ok", if abs then "1" else "0"] ++ steps.map showStep)
       | none => "err Invalid"
     | none => "err BadHex"
-  | "pathsof", [t] =>
+  | "pathsof", [t, ty] =>
     match readTree t with
-    | some f => " ".intercalate ("ok" :: (allAddrs (t.length + 1) f).map fun a => match pathOf f a with
-        | some p => Hex.enc p
+    | some f => " ".intercalate ("ok" :: (allAddrs (t.length + 1) f).map fun a =>
+        match lydPath f a (if ty == "1" then .stdNoLastPred else .std) none with
+        | some b => Hex.enc b.data
         | none => "?")
     | none => "err BadTree"
   | "pathof", [t, a, ty, bl] =>
